@@ -211,6 +211,24 @@ pub fn expr(e: &mut J, line: u64) -> String {
             let a = args(e, line, false);
             format!("{}.{}({})", o, e["name"].as_str().unwrap(), a)
         }
+        "dot" => {
+            let o = expr(&mut e["e"], line);
+            format!("{}.{}", o, e["name"].as_str().unwrap())
+        }
+        "fstr" => {
+            // f"lit0{n1}lit1..." ; literal braces are doubled
+            let lits: Vec<String> = e["lits"].as_array().unwrap().iter().map(cp_to_string).collect();
+            let names: Vec<String> = e["names"].as_array().unwrap().iter().map(|n| n.as_str().unwrap().to_owned()).collect();
+            let mut o = String::new();
+            for (i, l) in lits.iter().enumerate() {
+                let q = quote(&l.replace('{', "{{").replace('}', "}}"));
+                o.push_str(&q[1..q.len() - 1]);
+                if i < names.len() {
+                    o.push_str(&format!("{{{}}}", names[i]));
+                }
+            }
+            format!("f\"{}\"", o)
+        }
         k => panic!("bad expr kind {}", k),
     }
 }
